@@ -194,7 +194,10 @@ fn run_driver<E: Engine>(e: &E, tier: Tier) -> i32 {
         if total.stats.get(p) == 0 {
             // A run cut short by the soft deadline (slow or busy machine) may legitimately miss a
             // rare probe: say so, but do not fail the check for it.
-            if total.stopped_by_deadline || total.evaluations * 4 < count {
+            if std::env::var("VERIF_COUNT").is_ok() {
+                // an explicitly shortened run (the determinism audit, experiments): rare probes may stay at zero
+                println!("NOTE reach probe {} stayed at zero in a run of {} scenarios (VERIF_COUNT)", p, count);
+            } else if total.stopped_by_deadline || total.evaluations * 4 < count {
                 println!("NOTE reach probe {} stayed at zero in a run shortened by the soft deadline ({} of {} scenarios)", p, total.evaluations, count);
             } else {
                 harness_errors.push(format!("reach probe {} stayed at zero", p));
